@@ -15,6 +15,9 @@
 //	O event <bits o|i|e…> K=<k,k,…> [cb=<call>]  epoll event (only the parts the kernel could deliver in
 //	      the current registration state are delivered); K answers the flush; cb is a call issued
 //	      from the OnData callback while the event is handled
+//	O event i K=- race=<call>                  a call issued by ANOTHER goroutine while the poller is inside
+//	      ResetPollerEvent, between its look at the write list and its epoll_ctl (forced through the
+//	      shim's CtlHook); if the poller holds the conn mutex there, the call runs right after it
 //	O close
 //	Q                                          observation
 //
@@ -304,7 +307,7 @@ var sizeTable = []int{0, 1, 1, 2, 3, 17, 100, 100, 1000, 1000, 4096, 30000, 6553
 func pickSize(g *lp.Gen, s *sim) int {
 	switch {
 	case s.maxwb > 0 && g.Chance(1, 4): // around the remaining budget
-		n := s.maxwb - s.left + g.PickInt(-1, 0, 0, 1, 1, 2)
+		n := s.maxwb - s.left + g.PickInt(-1, -1, 0, 0, 0, 1)
 		if n < 0 {
 			n = 0
 		}
@@ -312,12 +315,18 @@ func pickSize(g *lp.Gen, s *sim) int {
 			n = 600000
 		}
 		return n
-	case g.Chance(1, 14):
-		return 150000 + g.Intn(300000) // hundreds of KiB
-	case g.Chance(1, 10):
-		return g.Intn(300)
 	}
-	return sizeTable[g.Intn(len(sizeTable))]
+	n := sizeTable[g.Intn(len(sizeTable))]
+	switch {
+	case g.Chance(1, 14):
+		n = 150000 + g.Intn(300000) // hundreds of KiB
+	case g.Chance(1, 10):
+		n = g.Intn(300)
+	}
+	if s.over(n) && g.Chance(5, 6) { // an overflow closes the conn: keep most calls within the budget
+		n = g.Intn(s.maxwb - s.left + 1)
+	}
+	return n
 }
 
 // genK: one answer for a request of req bytes; bounds = interesting split points inside the request.
@@ -327,7 +336,7 @@ func genK(g *lp.Gen, req int, bounds []int) string {
 		return "eagain"
 	case r < 20:
 		return "eintr"
-	case r < 23:
+	case r < 22:
 		return "epipe"
 	case r < 55 || req <= 1:
 		if g.Chance(1, 3) {
@@ -521,29 +530,42 @@ func gen(g *lp.Gen) {
 			open = strings.Join(cl, ";")
 		}
 		g.P("C typ=%s mode=%s maxwb=%d fsize=%d openwrite=%s", typ, mode, s.maxwb, s.fsize, open)
-		nops := 1 + g.Intn(10)
+		nops := 2 + g.Intn(12)
 		if g.Chance(1, 8) {
 			nops = 12 + g.Intn(14)
 		}
 		for i := 0; i < nops; i++ {
+			if s.closed && g.Chance(3, 4) {
+				break // a few ops on the closed conn are enough
+			}
+			pCall := 62 // no backlog: build one
+			if len(s.items) > 0 {
+				pCall = 38
+			}
 			switch r := g.Intn(100); {
-			case r < 50:
+			case r < pCall:
 				g.P("O %s", genCall(g, s, false))
-			case r < 92:
-				bits := g.Pick("o", "o", "o", "o", "o", "o", "oi", "oi", "oi", "i", "i", "oe", "e", "oie")
+			case r < 93:
+				bits := g.Pick("o", "o", "o", "o", "o", "o", "o", "oi", "oi", "oi", "i", "i", "i", "oe", "e", "oie")
+				if len(s.items) == 0 && g.Chance(2, 3) {
+					bits = g.Pick("i", "i", "i", "oi", "o", "ie") // EPOLLOUT is not armed in LT/ONESHOT without a backlog
+				}
 				k := "-"
 				if strings.Contains(bits, "o") {
 					k = genFlush(g, s)
 				}
 				cb := ""
-				if strings.Contains(bits, "i") && g.Chance(1, 2) {
+				if bits == "i" && g.Chance(1, 6) {
+					// a writer goroutine racing with the poller's re-arm
+					cb = " race=" + strings.ReplaceAll(genCall(g, s, false), " ", "/")
+				} else if strings.Contains(bits, "i") && g.Chance(1, 2) {
 					cb = " cb=" + strings.ReplaceAll(genCall(g, s, false), " ", "/")
 				}
 				if strings.Contains(bits, "e") {
 					s.kill()
 				}
 				g.P("O event %s K=%s%s", bits, k, cb)
-			case r < 95:
+			case r < 96:
 				s.kill()
 				g.P("O close")
 			default:
@@ -1089,6 +1111,13 @@ func exec(e *lp.Exec) {
 					err = errors.New("offset")
 				}
 			}
+			var race *call
+			if rs, ok := kv(f[3:], "race"); ok && err == nil {
+				race, err = parseCall(strings.Split(rs, "/"))
+				if err == nil && ((race.kind == "sendfile" && race.off > cs.fsize) || bits != "i" || cb != nil) {
+					err = errors.New("race: only with a plain i event")
+				}
+			}
 			if err != nil || strings.Trim(bits, "oie") != "" {
 				res("bad-op")
 				cs.dead = true
@@ -1113,6 +1142,7 @@ func exec(e *lp.Exec) {
 				}
 			}
 			cs.cbRes = "-"
+			raceRes := "-"
 			if evs != 0 {
 				before := cs.backlog()
 				cs.v.Lock()
@@ -1128,12 +1158,43 @@ func exec(e *lp.Exec) {
 				}
 				cs.v.Unlock()
 				atomic.StoreInt64(&cs.zeroWrites, 0)
+				var raceDone chan string
+				raceArmed := int32(0)
+				if race != nil {
+					// the first epoll_ctl of this event is ResetPollerEvent's (no flush, no callback call)
+					raceDone = make(chan string, 1)
+					raceArmed = 1
+					vsys.CtlHook = func(fd, op int, events uint32) {
+						if fd != cs.fd || !atomic.CompareAndSwapInt32(&raceArmed, 1, 2) {
+							return
+						}
+						done := make(chan string, 1)
+						go func() { done <- cs.doCall(race) }()
+						select {
+						case r := <-done: // completed before the poller's epoll_ctl: the poller does not hold the mutex here
+							raceDone <- r
+						case <-time.After(50 * time.Millisecond): // blocked on the conn mutex: it will run after the poller is through
+							go func() { raceDone <- <-done }()
+						}
+					}
+				}
 				ok := vsys.InjectTimeout(engines[cs.mode].epfd, []syscall.EpollEvent{{Fd: int32(cs.fd), Events: evs}}, hangTimeout)
 				if !ok {
 					// the poller is stuck inside the batch (holding the conn mutex): abandon conn and engine
 					delete(engines, cs.mode)
 					cs.hang("event loop did not come back from an injected batch: flush never returns")
 					continue
+				}
+				if race != nil {
+					vsys.CtlHook = nil
+					if atomic.LoadInt32(&raceArmed) == 2 {
+						select {
+						case raceRes = <-raceDone:
+						case <-time.After(hangTimeout):
+							cs.hang("a call racing with ResetPollerEvent never returned")
+							continue
+						}
+					}
 				}
 				cs.v.Lock()
 				left := len(cs.v.Script)
@@ -1171,12 +1232,28 @@ func exec(e *lp.Exec) {
 					}
 				}
 				e.Count("events", deliv)
+				for _, a := range ans[:len(ans)-left] {
+					if !cbRan {
+						if a.Err == 0 {
+							e.Count("answers", "wrote")
+						} else {
+							e.Count("answers", a.Err.Error())
+						}
+					}
+				}
 			} else {
 				deliv = "-"
 				e.Count("events", "not-deliverable")
 			}
+			if race != nil && raceRes == "-" {
+				// no ResetPollerEvent in this event (not ONESHOT, or nothing delivered): the call simply follows
+				raceRes = cs.doCall(race)
+			}
+			if race != nil {
+				e.Count("events", "race")
+			}
 			fmt.Fprintf(&cs.key, "ev%s,", deliv)
-			res("R deliv=%s cb=%s %s", deliv, cs.cbRes, cs.state())
+			res("R deliv=%s cb=%s rc=%s %s", deliv, cs.cbRes, raceRes, cs.state())
 		case f[0] == "O":
 			cl, err := parseCall(f[1:])
 			if err != nil || (cl.kind == "sendfile" && cl.off > cur.fsize) {
